@@ -470,9 +470,9 @@ func diffSnap(a, b *Snap, full bool) string {
 			continue
 		}
 		if x.State != y.State || !x.Alloc.Eq(y.Alloc) || !x.Pending.Eq(y.Pending) || !x.PhAlloc.Eq(y.PhAlloc) || x.Queue != y.Queue ||
-			len(x.Allocs) != len(y.Allocs) || len(x.Asks) != len(y.Asks) || len(x.Reservations) != len(y.Reservations) {
+			len(x.Allocs) != len(y.Allocs) || x.pendingAsks() != y.pendingAsks() || len(x.Reservations) != len(y.Reservations) {
 			d = append(d, fmt.Sprintf("application %s: state %s->%s alloc %s->%s pending %s->%s allocations %d->%d asks %d->%d reservations %d->%d",
-				id, x.State, y.State, x.Alloc, y.Alloc, x.Pending, y.Pending, len(x.Allocs), len(y.Allocs), len(x.Asks), len(y.Asks), len(x.Reservations), len(y.Reservations)))
+				id, x.State, y.State, x.Alloc, y.Alloc, x.Pending, y.Pending, len(x.Allocs), len(y.Allocs), x.pendingAsks(), y.pendingAsks(), len(x.Reservations), len(y.Reservations)))
 		}
 	}
 	for _, id := range sortedKeys(b.Apps) {
@@ -518,4 +518,15 @@ func diffSnap(a, b *Snap, full bool) string {
 		d = append(d[:4], fmt.Sprintf("... and %d more", len(d)-4))
 	}
 	return strings.Join(d, "; ")
+}
+
+// pendingAsks: outstanding (unallocated) asks; request entries of allocated asks are bookkeeping only.
+func (a *AppSnap) pendingAsks() int {
+	n := 0
+	for _, ask := range a.Asks {
+		if !ask.Allocated {
+			n++
+		}
+	}
+	return n
 }
